@@ -889,7 +889,31 @@ func c07CommentDecisionFirst(c *Ctx) {
 	for _, r := range rets {
 		target := r.Site
 		if ok, _ := fl.MustPass(fl.Entry(), func(s Site) bool { return s == target }, false, isCommentCall); !ok {
-			bad = p.Pos(r.Inner.Pos())
+			// or: the exit is dominated by the fact "the comment decision was positive", whatever
+			// larger condition that test is part of (`if !states || !isEnabled(…DisabledChecks…) { return false }`)
+			dom := fl.Dominated(target, nil, func(a Atom) bool {
+				e, t := ast.Unparen(a.E), a.Truth
+				for {
+					u, isU := e.(*ast.UnaryExpr)
+					if !isU || u.Op != token.NOT {
+						break
+					}
+					e, t = ast.Unparen(u.X), !t
+				}
+				call, isCall := e.(*ast.CallExpr)
+				if !isCall || !t || a.Tag != nil || !isCallTo(info, call, "internal/config.isEnabled") {
+					return false
+				}
+				for _, arg := range call.Args {
+					if fieldSel(info, arg, "internal/discovery.Entry", "DisabledChecks") {
+						return true
+					}
+				}
+				return false
+			})
+			if !dom {
+				bad = p.Pos(r.Inner.Pos())
+			}
 		}
 	}
 	c.Check(len(rets) >= 1 && bad == "", "C07-R6", "parsedRule.isEnabled:comment decision precedes every `return true`", pie.Decl.Pos(), itoa(len(rets))+" positive exits, all after the comment test",
